@@ -176,7 +176,8 @@ def in3_handles_stay_home(ctx, rep):
                 t = strip_wrap(bp.arg_term(s.bb, ai))
                 if t[0] == "field" and t[2] == "name" and t[1] in (("param", 1),) and (b.j.get("impl_adt") or "").endswith("StoreImpl"):
                     n += 1
-                    okc = s.ck.startswith("core::fmt::rt::Argument::new_") or s.ck in ("std::clone::Clone::clone", "std::string::String::as_str", "std::ops::Deref::deref")
+                    okc = s.ck.startswith("core::fmt::rt::Argument::new_") or s.ck.startswith("std::fmt::Debug") or s.ck.startswith("std::fmt::Display") \
+                        or s.ck.startswith("std::fmt::Formatter::") or s.ck in ("std::clone::Clone::clone", "std::string::String::as_str", "std::ops::Deref::deref", "std::string::String::len", "std::string::String::is_empty")
                     rep.check(okc, R, "name-only-formatted:%s" % short(b.path), s.where, "store name used for %s" % s.ck.split("::")[-1], "store name flows into %s (a lookup keyed by name would couple stores sharing a name)" % s.ck)
     rep.floor(R, "uses of the store name", n, 2)
 
